@@ -1,8 +1,9 @@
 ------------------------ MODULE Trace_DiscoveryServer ------------------------
 (* code -> spec: lives of the real frappy.server.Server on a fake bind layer.          *)
-(*   boot     cfg listening announce answers ok error                                   *)
-(*   restart      listening announce answers ok error                                   *)
-(*   shutdown     listening          answers ok error                                   *)
+(*   boot     cfg up listening announce answers ok error                                *)
+(*   restart      up listening announce answers ok error                                *)
+(*   shutdown        listening          answers ok error                                *)
+(* cfg = schemes, up = indices of the interfaces scripted to come up at this (re)start, *)
 (* listening = configured indices of the TCP ports really bound now (0: a port that is  *)
 (* not configured), answers / announce = <<g, i>> per message: g = generation of the    *)
 (* identity it carries, i = configured index of the port it names (0: none);            *)
@@ -17,41 +18,42 @@ Ev == Traces[t][l]
 Pairs(s) == {<<s[k][1], s[k][2]>> : k \in 1 .. Len(s)}
 
 (* judged on the state AFTER the operation *)
-Clauses(e, c, ph, g) ==
+Clauses(e, c, u, ph, g) ==
    << <<e.ev \o ".no_error", e.error = "">>,
-      <<e.ev \o ".listening", ToSet(e.listening) = (IF ph = "up" THEN TcpOpened(c) ELSE {})>>,
+      <<e.ev \o ".listening", ToSet(e.listening) = (IF ph = "up" THEN Tcp(c) \cap u ELSE {})>>,
       <<e.ev \o ".messages_wellformed", e.ok>>,
       <<e.ev \o ".answers_current_identity", \A p \in Pairs(e.answers) : p[1] = g>>,
       <<e.ev \o ".answers_port_listened", \A p \in Pairs(e.answers) : p[2] \in ToSet(e.listening)>>,
       <<e.ev \o ".one_answer_per_port", Len(e.answers) = Cardinality(Pairs(e.answers))>>,
-      <<e.ev \o ".answers", Pairs(e.answers) = Demanded(c, ph, g)>>,
+      <<e.ev \o ".answers", Pairs(e.answers) = Demanded(c, u, ph, g)>>,
       <<e.ev \o ".announce", e.ev = "shutdown" \/
-            (Pairs(e.announce) \subseteq Demanded(c, ph, g) /\ Len(e.announce) = Cardinality(Pairs(e.announce)))>> >>
+            (Pairs(e.announce) \subseteq Demanded(c, u, ph, g) /\ Len(e.announce) = Cardinality(Pairs(e.announce)))>> >>
 FirstFalse(cl) == LET bad == {j \in 1 .. Len(cl) : ~ cl[j][2]}
                   IN IF bad = {} THEN "" ELSE cl[Min(bad)][1]
 
 TInit == /\ t \in 1 .. NT /\ l = 1
-         /\ cfg = Traces[t][1].cfg /\ phase = "down" /\ gen = 0 /\ live = {} /\ last = [kind |-> "none"]
+         /\ cfg = Traces[t][1].cfg /\ up = {} /\ ever = {} /\ phase = "down" /\ gen = 0 /\ live = {}
+         /\ given = <<>> /\ last = [kind |-> "none"]
 TStep == /\ l <= Len(Traces[t])
          /\ l' = l + 1 /\ t' = t
-         /\ \/ Ev.ev = "boot" /\ Boot
-            \/ Ev.ev = "restart" /\ Restart
+         /\ \/ Ev.ev = "boot" /\ phase = "down" /\ Come("boot", ToSet(Ev.up))
+            \/ Ev.ev = "restart" /\ phase = "up" /\ Come("restart", ToSet(Ev.up))
             \/ Ev.ev = "shutdown" /\ Shutdown
-         /\ FirstFalse(Clauses(Ev, cfg, phase', gen')) = ""
+         /\ FirstFalse(Clauses(Ev, cfg, up', phase', gen')) = ""
 TSpec == TInit /\ [][TStep]_<<wvars, t, l>>
 
 Track == TLCSet(t, IF l > TLCGet(t) THEN l ELSE TLCGet(t))
 (* replays the operations of trace i up to event k to name the failing clause *)
 RECURSIVE StateAt(_, _)
-StateAt(i, k) ==      \* <<phase, gen>> after event k
-   IF k = 0 THEN <<"down", 0>>
+StateAt(i, k) ==      \* <<phase, gen, up>> after event k
+   IF k = 0 THEN <<"down", 0, {}>>
    ELSE LET s == StateAt(i, k - 1)
             e == Traces[i][k]
-        IN IF e.ev = "boot" THEN (IF Opened(Traces[i][1].cfg) = {} THEN <<"stopped", 0>> ELSE <<"up", 1>>)
-           ELSE IF e.ev = "restart" THEN <<s[1], s[2] + 1>>
-           ELSE <<"stopped", s[2]>>
+        IN IF e.ev \in {"boot", "restart"}
+           THEN (IF ToSet(e.up) = {} THEN <<"stopped", s[2], {}>> ELSE <<"up", s[2] + 1, ToSet(e.up)>>)
+           ELSE <<"stopped", s[2], {}>>
 Why(i, k) == LET s == StateAt(i, k)
-                 w == FirstFalse(Clauses(Traces[i][k], Traces[i][1].cfg, s[1], s[2]))
+                 w == FirstFalse(Clauses(Traces[i][k], Traces[i][1].cfg, s[3], s[1], s[2]))
              IN IF w = "" THEN "operation not enabled in DiscoveryServer" ELSE w
 Verdicts == \A i \in 1 .. NT :
    IF TLCGet(i) = Len(Traces[i]) + 1 THEN PrintT(<<"ACCEPT", i>>)
